@@ -38,6 +38,7 @@ type Caller struct {
 // Case is a workload over 1-3 connections.
 type Case struct {
 	M       kit.Modes `json:"modes"`
+	FreeCtx bool      `json:"free_ctx,omitempty"` // context handlers call rpc.FreeContextBuffer like the repository's example service
 	Conns   int       `json:"conns"`
 	Callers []Caller  `json:"callers"`
 }
@@ -60,6 +61,8 @@ func genSize(t *rapid.T) int {
 			return rapid.IntRange(100000, 400000).Draw(t, "size")
 		}
 		return rapid.IntRange(16, 70000).Draw(t, "size")
+	case k == 10:
+		return rapid.IntRange(16385, 32768).Draw(t, "size")
 	case k <= 12:
 		return rapid.IntRange(16, 4000).Draw(t, "size")
 	default:
@@ -79,11 +82,14 @@ func genModes(t *rapid.T) kit.Modes {
 	if m.Link == "bytes" {
 		m.Chunk = rapid.SampledFrom([]int{0, 1, 2, 7, 64, 4096}).Draw(t, "chunk")
 	}
+	// server in context-buffer mode (handlers that take a context get the request's buffer)
+	m.CtxBuf = rapid.IntRange(0, 2).Draw(t, "ctx_buf") == 0
 	return m
 }
 
 func gen(t *rapid.T) Case {
 	c := Case{M: genModes(t)}
+	c.FreeCtx = c.M.CtxBuf && rapid.Bool().Draw(t, "free_ctx")
 	c.Conns = rapid.IntRange(1, 3).Draw(t, "conns")
 	ncallers := rapid.IntRange(1, 8).Draw(t, "callers")
 	if rapid.IntRange(0, 5).Draw(t, "many") == 0 {
@@ -185,11 +191,15 @@ func run(c Case) kit.Outcome {
 	if total > 2000 {
 		return kit.Outcome{Invalid: true}
 	}
+	if c.FreeCtx && !c.M.CtxBuf {
+		return kit.Outcome{Invalid: true}
+	}
 	s, err := kit.NewSession(c.M)
 	if err != nil {
 		return kit.Undecided("%v", err)
 	}
 	defer s.Close()
+	s.Env.FreeCtx = c.FreeCtx
 	for i := 0; i < c.Conns; i++ {
 		if _, err := s.Dial(); err != nil {
 			return kit.Undecided("dial: %v", err)
